@@ -896,9 +896,16 @@ class PathResolver:
         if isinstance(a, ast.AugAssign):
             # x += ...: same object for lists; keep previous paths
             prev = []
-            for dd in self.cfg.reaching(d, name):
-                if dd is not d:
-                    prev += self._def_paths(name, dd, d)
+            visiting = self.__dict__.setdefault('_aug_visiting', set())
+            if (name, d.idx) in visiting:
+                return []           # several `x += ..` in one loop reach one another: the cycle adds nothing
+            visiting.add((name, d.idx))
+            try:
+                for dd in self.cfg.reaching(d, name):
+                    if dd is not d:
+                        prev += self._def_paths(name, dd, d)
+            finally:
+                visiting.discard((name, d.idx))
             return prev or [Path(('fresh', d.lineno))]
         if isinstance(a, (ast.Import, ast.ImportFrom)):
             return [Path(('global', name))]
